@@ -11,9 +11,19 @@ Part A (approximator level): the full product
   x parallel (off / on = 2 processes; the quick tier crosses parallel=on with step in {first scalar, vector} given at
     call only - each parallel run costs ~60 ms of process start-up; the thorough tier runs the full product)
   x design space (none / bounded with normalize off / bounded with normalize on)
-Part B (discipline level): Discipline.linearize in the three approximation modes (B1),
-Discipline.check_jacobian(indices=...) on a correct Jacobian and on Jacobians wrong in exactly one selected
-entry (B2), DisciplineJacApprox.compute_approx_jac(x_indices=...) placement of partial Jacobians (B3).
+Part H (histories on ONE approximator instance): f_gradient, an edit of the SAME DesignSpace object (upper bound
+tightened onto / just above the second point, made finite from +inf, loosened, made infinite; the same for the lower
+bound; no edit), f_gradient again; x normalize off/on x x_indices x step.  The second call is judged exactly like a
+fresh call against the CURRENT bounds (own model of the coordinates: only components with two finite bounds are
+normalized).
+Part B (discipline level), on two harness disciplines - x1 (size 1), x2 (2) -> y1 (1), y2 (2) and a (3), b (2) ->
+y (2), w (2), the second one so that a strict subset on a variable that is NOT the last one moves the flat positions of
+the following variable: Discipline.linearize in the three approximation modes (B1); Discipline.check_jacobian(
+indices=...) on a correct Jacobian (verdict, and the reference Jacobian the call itself saves, block by block:
+selected columns exact, the others zero) and on Jacobians wrong in exactly one selected entry of any selected block
+(B2); DisciplineJacApprox.compute_approx_jac(x_indices=...) placement of partial Jacobians (B3).
+Part HB (histories on ONE discipline / DisciplineJacApprox): two linearize / compute_approx_jac / check_jacobian calls
+with a different point, differentiated io, x_indices or indices; the second is judged like a fresh one.
 
 Oracle = shape, entry-wise theoretical error bound, log of every point the function is called at.
 
@@ -63,6 +73,13 @@ Oracle boundaries
   statement gives no bound; not enumerated (a witness through that path is quoted in the report only).
 * check_jacobian on a Jacobian wrong in a NOT selected entry: not specified by the statement, not checked.
 * Discipline-level parallel differentiation uses processes (threads on one discipline are documented unsafe).
+* DisciplineJacApprox differentiates a function of the differentiated inputs only; the other inputs are taken from the
+  discipline's DEFAULTS, not from the input_data given to linearize/check_jacobian (y = a*b, defaults b = 0:
+  linearize({a: 1, b: 2}) w.r.t. a in finite-difference mode returns 0 instead of 2).  That is how the discipline
+  adapter is specified, so the enumerated points differ from the defaults only in differentiated inputs; witnesses of
+  the behaviour run with ``./check C16 --only X`` (not part of the default run) and are reported separately.
+* linearize may return more blocks than requested after a cache hit (also in analytic mode): only requested blocks
+  are judged.
 """
 from __future__ import annotations
 
@@ -203,7 +220,7 @@ class TestFn:
         for k in (1, 2, 3):
             self._d[k] = [[_diff_terms(self._d[k - 1][i][j], j) for j in range(self.n)] for i in range(self.m)]
         self._bounds = {k: np.array([[_bound_terms(self._d[k][i][j], self.B) for j in range(self.n)] for i in range(self.m)]) for k in (0, 1, 2, 3)}
-        assert len(max(outs, key=len)) <= 8 and self.n <= 4  # premises of K_ROUND
+        assert len(max(outs, key=len)) <= 8 and self.n <= 5  # premises of K_ROUND (4n+2 <= 22 roundings per term + 7 additions <= 32)
 
     def value(self, x):
         v = [_eval_terms(o, x) for o in self.outs]
@@ -243,6 +260,19 @@ FUNCS = {
         ),
         # m == n == 3; also the body of the harness discipline (x1 = x[0], x2 = x[1:], y1 = F[0], y2 = F[1:])
         TestFn("disc33", [[_mono(1, 2, 1, 0), _mono(1, 0, 0, 1)], [_mono(1, 1, 1, 1)], [_mono(1, 0, 2, 0), _mono(1, 1, 0, 0), _mono(0.5, 0, 0, 3)]], *_BOX3),
+        # 5 variables, 4 outputs: body of the second harness discipline (a = x[0:3], b = x[3:5], y = F[0:2], w = F[2:4]);
+        # every block dy/da, dy/db, dw/da, dw/db is dense enough to tell a shifted column from the right one
+        TestFn(
+            "disc54",
+            [
+                [_mono(1, 1, 0, 0, 1, 0), _mono(1, 0, 2, 0, 0, 0), _mono(1, 0, 0, 1, 0, 0)],
+                [_mono(1, 0, 1, 0, 0, 1), _mono(1, 0, 0, 2, 1, 0)],
+                [_mono(1, 1, 0, 1, 0, 0), _mono(0.5, 0, 0, 0, 0, 3), _mono(1, 0, 0, 0, 1, 0), _mono(0.75, 0, 1, 0, 0, 0)],
+                [_mono(1, 2, 0, 0, 0, 1), _mono(1, 0, 1, 1, 1, 0)],
+            ],
+            [-2.0, -1.0, -1.5, -1.0, -2.0],
+            [2.0, 1.5, 1.0, 1.5, 1.0],
+        ),
         # thorough tier: quartic, 4 variables, 3 outputs
         TestFn(
             "quart4",
@@ -277,7 +307,7 @@ POINT_FLAG = {
 # ------------------------------------------------------------------------------------------------------
 class _SharedLog:
     CAP = 64
-    NMAX = 4
+    NMAX = 5
 
     def __init__(self):
         self.pid = None
@@ -309,14 +339,17 @@ _LOG = _SharedLog()
 class _Probe:
     """The function handed to the approximator: logs the point, maps it to physical space, evaluates."""
 
-    def __init__(self, fn, normalized):
+    def __init__(self, fn, normalized=False):
         self.fn = fn
-        self.normalized = normalized
+        self.set_map(fn.lb, fn.span) if normalized else self.set_map(np.zeros(fn.n), np.ones(fn.n))
+
+    def set_map(self, off, scale):
+        """x = off + u * scale (identity: off = 0, scale = 1, exact in floating point)."""
+        self.off, self.scale = np.array(off, dtype=float), np.array(scale, dtype=float)
 
     def __call__(self, u):
         _LOG.add(u)
-        x = self.fn.lb + u * self.fn.span if self.normalized else u
-        return self.fn.value(x)
+        return self.fn.value(self.off + u * self.scale)
 
 
 def _approx_class(name):
@@ -368,9 +401,10 @@ def _point(fn, kind, ds, hvec, alpha):
     return u, lbu, ubu
 
 
-def _tolerances(fn, approx, u, lbu, ubu, hvec, ds, cols):
+def _tolerances(fn, approx, u, lbu, ubu, hvec, ds, cols, scale=None):
     """(m, len(cols)) tolerance matrix and the per-column order label, see the module docstring."""
-    scale = fn.span if ds == "norm" else np.ones(fn.n)
+    if scale is None:
+        scale = fn.span if ds == "norm" else np.ones(fn.n)
     tol = np.zeros((fn.m, len(cols)))
     labels = []
     for c, j in enumerate(cols):
@@ -429,29 +463,19 @@ def _resolve_step(case, fn, alpha):
     return s, np.full(n, s)
 
 
-def exec_A(case):
-    """Run one approximator-level case on the real code. -> (violations [(invariant, message)], observation)."""
-    fn = FUNCS[case["fn"]]
-    alpha = ALPHABETS[case["alpha"]]
-    approx, ds, idx, n = case["approx"], case["ds"], list(case["idx"]), fn.n
-    step, hvec = _resolve_step(case, fn, alpha)
-    # "within one step" for the complex step (relative step ~1e-20) is meaningless: use 1e-6 for the point only
-    u, lbu, ubu = _point(fn, case["point"], ds, hvec if approx != "CS" else np.full(n, 1e-6), alpha)
+def _one_call(fn, approx, ap, probe, u, lbu, ubu, has_ds, call_step, step_repr, hvec, idx):
+    """One f_gradient call on ``ap`` judged by the full oracle (shape, error bound, evaluation log)."""
+    n = fn.n
     cols = idx or list(range(n))
-    xphys = fn.lb + u * fn.span if ds == "norm" else u
-    scale = fn.span if ds == "norm" else np.ones(n)
-    expected = (fn.jac(xphys) * scale)[:, cols]
-    tol, labels = _tolerances(fn, approx, u, lbu, ubu, hvec, ds, cols)
+    scale = probe.scale
+    expected = (fn.jac(probe.off + u * scale) * scale)[:, cols]
+    tol, labels = _tolerances(fn, approx, u, lbu, ubu, hvec, "given" if has_ds else "none", cols, scale=scale)
     exp_shape = (len(cols),) if fn.scalar_out else (fn.m, len(cols))
-    obs = {"x": u.tolist(), "step": np.asarray(step).tolist(), "x_indices": idx, "expected": expected.tolist(), "tolerance": tol.tolist()}
+    obs = {"x": u.tolist(), "step": step_repr, "x_indices": idx, "expected": expected.tolist(), "tolerance": tol.tolist()}
     viols = []
     _LOG.reset(n)
-    kwargs = {"design_space": _design_space(fn) if ds != "none" else None, "normalize": ds == "norm", "parallel": bool(case["par"])}
-    if case["par"]:
-        kwargs["n_processes"] = 2
     try:
-        ap = _approx_class(approx)(_Probe(fn, ds == "norm"), step=step if case["via"] == "ctor" else None, **kwargs)
-        jac = ap.f_gradient(u.copy(), step=(np.array(step) if isinstance(step, np.ndarray) else step) if case["via"] == "call" else None, x_indices=idx)
+        jac = ap.f_gradient(u.copy(), step=call_step, x_indices=idx)
     except Exception as e:  # noqa: BLE001 - any exception on a legal call is an observation
         viols.append(("no-exception", f"{type(e).__name__}: {str(e)[:200]}"))
         obs["raised"] = f"{type(e).__name__}: {str(e)[:200]}"
@@ -475,30 +499,187 @@ def exec_A(case):
             if bad.any():
                 i, c = map(int, np.argwhere(bad)[0])
                 viols.append(("error-bound", f"|J-exact|[{i},{cols[c]}]={err[i, c]:.3e} > bound {tol[i, c]:.3e} ({labels[c]}); J={j2.tolist()} exact={expected.tolist()}"))
-    if len(pts) and (np.abs(fn.lb + pts * fn.span if ds == "norm" else pts) > fn.B).any():
+    if len(pts) and (np.abs(probe.off + pts * scale) > fn.B).any():
         # outside the box on which the derivative bounds were derived: the accuracy oracle is void there
         viols.append(("evaluation-far-outside-box", f"points={pts.tolist()}"))
-    if ds != "none" and len(pts):
+    if has_ds and len(pts):
         over = pts - ubu
-        slack = 4 * EPS * np.maximum(1.0, np.abs(ubu))
+        slack = 4 * EPS * np.maximum(1.0, np.abs(np.where(np.isfinite(ubu), ubu, 1.0)))
         if (over > slack).any():
             k, j = map(int, np.argwhere(over > slack)[0])
-            viols.append(("upper-bound-exceeded", f"evaluation at {pts[k].tolist()} exceeds upper bound {ubu.tolist()} in component {j} by {over[k, j]:.3e} (x={u.tolist()}, step={np.asarray(step).tolist()})"))
+            viols.append(("upper-bound-exceeded", f"evaluation at {pts[k].tolist()} exceeds upper bound {ubu.tolist()} in component {j} by {over[k, j]:.3e} (x={u.tolist()}, step={step_repr})"))
         obs["below_lower_bound"] = int((pts < lbu - slack).any())
+    return viols, obs
+
+
+def exec_A(case):
+    """Run one approximator-level case on the real code. -> (violations [(invariant, message)], observation)."""
+    fn = FUNCS[case["fn"]]
+    alpha = ALPHABETS[case["alpha"]]
+    approx, ds, idx, n = case["approx"], case["ds"], list(case["idx"]), fn.n
+    step, hvec = _resolve_step(case, fn, alpha)
+    # "within one step" for the complex step (relative step ~1e-20) is meaningless: use 1e-6 for the point only
+    u, lbu, ubu = _point(fn, case["point"], ds, hvec if approx != "CS" else np.full(n, 1e-6), alpha)
+    kwargs = {"design_space": _design_space(fn) if ds != "none" else None, "normalize": ds == "norm", "parallel": bool(case["par"])}
+    if case["par"]:
+        kwargs["n_processes"] = 2
+    probe = _Probe(fn, ds == "norm")
+    step_repr = np.asarray(step).tolist()
+    try:
+        ap = _approx_class(approx)(probe, step=step if case["via"] == "ctor" else None, **kwargs)
+    except Exception as e:  # noqa: BLE001
+        return [("no-exception", f"{type(e).__name__}: {str(e)[:200]}")], {"raised": f"{type(e).__name__}: {str(e)[:200]}", "pattern": "raised"}
+    call_step = (np.array(step) if isinstance(step, np.ndarray) else step) if case["via"] == "call" else None
+    return _one_call(fn, approx, ap, probe, u, lbu, ubu, ds != "none", call_step, step_repr, hvec, idx)
+
+
+# ------------------------------------------------------------------------------------------------------
+# Part H: two calls on the SAME approximator instance, the SAME DesignSpace object edited in between
+# ------------------------------------------------------------------------------------------------------
+# edit -> positions of the second point (components S = {0, n-1}, one in each design variable) that make a stale
+# view of the bounds visible.  "onto/just above the second point" = the point is put on / within one step of the
+# NEW bound.
+HIST_EDITS = {
+    "none": ["near_ub"],
+    "ub_tighten": ["on_ub", "near_ub"],
+    "ub_inf_to_finite": ["on_ub", "near_ub"],
+    "ub_loosen": ["past_old_ub", "near_ub"],
+    "ub_finite_to_inf": ["near_old_ub"],
+    "lb_tighten": ["on_lb", "near_lb", "near_ub"],
+    "lb_inf_to_finite": ["on_lb", "near_lb", "near_ub"],
+    "lb_loosen": ["past_old_lb", "near_ub"],
+    "lb_finite_to_inf": ["near_old_lb", "near_ub"],
+}
+HIST_VALID_POS = {e: set(p) | ({"interior"} if e != "ub_finite_to_inf" else {"interior"}) for e, p in HIST_EDITS.items()}
+HIST_VALID_POS["none"] |= {"on_ub", "on_lb", "near_lb"}
+
+
+def _hist_bounds(fn, edit):
+    """-> (lb before, ub before, lb after, ub after); only the components S are edited."""
+    n = fn.n
+    S = sorted({0, n - 1})
+    lb0, ub0, lb2, ub2 = fn.lb.copy(), fn.ub.copy(), fn.lb.copy(), fn.ub.copy()
+    if edit == "ub_tighten":
+        ub2[S] = fn.lb[S] + 0.8 * fn.span[S]
+    elif edit == "ub_inf_to_finite":
+        ub0[S] = np.inf
+    elif edit == "ub_loosen":
+        ub0[S] = fn.lb[S] + 0.6 * fn.span[S]
+    elif edit == "ub_finite_to_inf":
+        ub2[S] = np.inf
+    elif edit == "lb_tighten":
+        lb2[S] = fn.lb[S] + 0.2 * fn.span[S]
+    elif edit == "lb_inf_to_finite":
+        lb0[S] = -np.inf
+    elif edit == "lb_loosen":
+        lb0[S] = fn.lb[S] + 0.4 * fn.span[S]
+    elif edit == "lb_finite_to_inf":
+        lb2[S] = -np.inf
+    elif edit != "none":
+        raise ValueError(edit)
+    return lb0, ub0, lb2, ub2
+
+
+def _coords(lb, ub, normalize):
+    """Own model of the coordinates of a (partly unbounded) design space: only components with two finite bounds
+    are normalized. -> (off, scale, lower bound, upper bound in approximator coordinates)"""
+    norm = np.isfinite(lb) & np.isfinite(ub) & bool(normalize)
+    safe_lb, safe_ub = np.where(norm, lb, 0.0), np.where(norm, ub, 1.0)
+    return safe_lb, safe_ub - safe_lb, np.where(norm, 0.0, lb), np.where(norm, 1.0, ub)
+
+
+def exec_H(case):
+    from gemseo.algos.design_space import DesignSpace
+
+    fn = FUNCS[case["fn"]]
+    alpha = ALPHABETS[case["alpha"]]
+    approx, normalize, edit, pos, idx2, n = case["approx"], bool(case["normalize"]), case["edit"], case["pos"], list(case["idx2"]), fn.n
+    S = sorted({0, n - 1})
+    step, hvec = _resolve_step(case, fn, alpha)
+    hpt = hvec if approx != "CS" else np.full(n, 1e-6)
+    near = alpha["near"]
+    lb0, ub0, lb2, ub2 = _hist_bounds(fn, edit)
+    ds = DesignSpace()
+    parts = (("a", slice(0, 1)), ("b", slice(1, n)))
+    for name, sl in parts:
+        ds.add_variable(name, sl.stop - sl.start, lower_bound=lb0[sl].copy(), upper_bound=ub0[sl].copy())
+    probe = _Probe(fn)
+    step_repr = np.asarray(step).tolist()
+    call_step = lambda: np.array(step) if isinstance(step, np.ndarray) else step  # noqa: E731
+    viols, obs = [], {}
+    try:
+        ap = _approx_class(approx)(probe, design_space=ds, normalize=normalize)
+    except Exception as e:  # noqa: BLE001
+        return [("no-exception", f"{type(e).__name__}: {str(e)[:200]}")], {"raised": str(e)[:200]}
+    # first call: interior of the initial space
+    t1 = np.array(alpha["interior"][:n], dtype=float)
+    lo, hi = np.where(np.isfinite(lb0), lb0, fn.lb), np.where(np.isfinite(ub0), ub0, fn.ub)
+    off, scale, lbu, ubu = _coords(lb0, ub0, normalize)
+    probe.set_map(off, scale)
+    u1 = (lo + t1 * (hi - lo) - off) / scale
+    v1, o1 = _one_call(fn, approx, ap, probe, u1, lbu, ubu, True, call_step(), step_repr, hvec, [])
+    viols += [("first-call:" + i, m) for i, m in v1]
+    obs["first_call"] = {k: o1[k] for k in ("x", "jacobian", "pattern") if k in o1}
+    # the edit, on the same DesignSpace object
+    for name, sl in parts:
+        if not np.array_equal(ub0[sl], ub2[sl]):
+            ds.set_upper_bound(name, ub2[sl].copy())
+        if not np.array_equal(lb0[sl], lb2[sl]):
+            ds.set_lower_bound(name, lb2[sl].copy())
+    # second call
+    t2 = t1[::-1].copy()
+    lo, hi = np.where(np.isfinite(lb2), lb2, fn.lb), np.where(np.isfinite(ub2), ub2, fn.ub)
+    off, scale, lbu, ubu = _coords(lb2, ub2, normalize)
+    probe.set_map(off, scale)
+    u2 = (lo + t2 * (hi - lo) - off) / scale
+    if pos == "on_ub":
+        u2[S] = ubu[S]
+    elif pos == "near_ub":
+        u2[S] = ubu[S] - near * hpt[S]
+    elif pos == "on_lb":
+        u2[S] = lbu[S]
+    elif pos == "near_lb":
+        u2[S] = lbu[S] + near * hpt[S]
+    elif pos == "past_old_ub":  # between the old and the new upper bound
+        u2[S] = ((fn.lb + 0.75 * fn.span - off) / scale)[S]
+    elif pos == "past_old_lb":
+        u2[S] = ((fn.lb + 0.25 * fn.span - off) / scale)[S]
+    elif pos == "near_old_ub":  # the component is unbounded above now
+        u2[S] = ((ub0 - off) / scale)[S] - near * hpt[S]
+    elif pos == "near_old_lb":
+        u2[S] = ((lb0 - off) / scale)[S] + near * hpt[S]
+    elif pos != "interior":
+        raise ValueError(pos)
+    if not (np.isfinite(u2).all() and (u2 <= ubu).all() and (u2 >= lbu).all()):
+        raise HarnessError(f"second point {u2} outside the edited design space [{lbu}, {ubu}]")
+    v2, o2 = _one_call(fn, approx, ap, probe, u2, lbu, ubu, True, call_step(), step_repr, hvec, idx2)
+    viols += v2
+    obs.update(o2)
+    obs["bounds_after_edit"] = [lbu.tolist(), ubu.tolist()]
     return viols, obs
 
 
 # ------------------------------------------------------------------------------------------------------
 # Part B: discipline level
 # ------------------------------------------------------------------------------------------------------
-DFN = "disc33"
-IN_SLICES = {"x1": [0], "x2": [1, 2]}
-OUT_SLICES = {"y1": [0], "y2": [1, 2]}
+LAYOUTS = {
+    # one scalar-like variable followed by a vector: the subset can only be strict on the LAST input variable
+    "toy33": {"fn": "disc33", "ins": {"x1": [0], "x2": [1, 2]}, "outs": {"y1": [0], "y2": [1, 2]}},
+    # two vector inputs (sizes 3 and 2) and two vector outputs: a strict subset on the FIRST variable shifts the flat
+    # positions of the second one if the cursor arithmetic of _compute_variable_indices is wrong
+    "toy54": {"fn": "disc54", "ins": {"a": [0, 1, 2], "b": [3, 4]}, "outs": {"y": [0, 1], "w": [2, 3]}},
+}
 WRONG_DELTA = 1.0
 _TOY = None
+_SCRATCH = None  # set by run()/replay(): directory for the reference-Jacobian files written by check_jacobian
 
 
-def _toy(point, wrong=None):
+def _lay(case):
+    lay = LAYOUTS[case.get("layout", "toy33")]
+    return FUNCS[lay["fn"]], lay["ins"], lay["outs"]
+
+
+def _toy(layout, point, wrong=None):
     global _TOY
     if _TOY is None:
         from gemseo.core.discipline import Discipline
@@ -506,55 +687,63 @@ def _toy(point, wrong=None):
         class C16Toy(Discipline):
             default_grammar_type = Discipline.GrammarType.SIMPLE
 
-            def __init__(self, x0, wrong):
+            def __init__(self, layout, x0, wrong):
                 super().__init__()
-                self.io.input_grammar.update_from_types({"x1": np.ndarray, "x2": np.ndarray})
-                self.io.output_grammar.update_from_types({"y1": np.ndarray, "y2": np.ndarray})
-                self.io.input_grammar.defaults = {"x1": np.array(x0[:1]), "x2": np.array(x0[1:])}
+                lay = LAYOUTS[layout]
+                self.fn, self.ins, self.outs = FUNCS[lay["fn"]], lay["ins"], lay["outs"]
+                self.io.input_grammar.update_from_types(dict.fromkeys(self.ins, np.ndarray))
+                self.io.output_grammar.update_from_types(dict.fromkeys(self.outs, np.ndarray))
+                self.io.input_grammar.defaults = {k: np.array(x0[c]) for k, c in self.ins.items()}
                 self.wrong = wrong
                 self.n_runs = 0
 
+            def _x(self, data):
+                x = np.zeros(self.fn.n, dtype=np.result_type(*[np.asarray(data[k]).dtype for k in self.ins]))
+                for k, c in self.ins.items():
+                    x[c] = data[k]
+                return x
+
             def _run(self, input_data):
                 self.n_runs += 1
-                x = np.concatenate([input_data["x1"], input_data["x2"]])
-                f = FUNCS[DFN].value(x)
-                return {"y1": f[:1], "y2": f[1:]}
+                f = self.fn.value(self._x(input_data))
+                return {k: f[r] for k, r in self.outs.items()}
 
             def _compute_jacobian(self, input_names=(), output_names=()):
-                x = np.real(np.concatenate([self.io.data["x1"], self.io.data["x2"]]))
-                j = FUNCS[DFN].jac(x)
-                self.jac = {o: {i: j[np.ix_(r, c)].copy() for i, c in IN_SLICES.items()} for o, r in OUT_SLICES.items()}
+                j = self.fn.jac(np.real(self._x(self.io.data)))
+                self.jac = {o: {i: j[np.ix_(r, c)].copy() for i, c in self.ins.items()} for o, r in self.outs.items()}
                 if self.wrong:
                     o, r, i, c = self.wrong
                     self.jac[o][i][r, c] += WRONG_DELTA
 
         _TOY = C16Toy
-    return _TOY(point, wrong)
+    return _TOY(layout, point, wrong)
 
 
-def _disc_point(kind, alpha):
-    fn = FUNCS[DFN]
-    u, _, _ = _point(fn, kind, "none", np.full(fn.n, 1e-6), alpha)
+def _disc_point(fn, kind, alpha, second=False):
+    a = alpha if not second else {**alpha, "interior": tuple(reversed(alpha["interior"])) + alpha["interior"]}
+    if fn.n > len(a["interior"]):
+        a = {**a, "interior": tuple(a["interior"]) + tuple(1.0 - t for t in a["interior"])}
+    u, _, _ = _point(fn, kind, "none", np.full(fn.n, 1e-6), a)
     return u
 
 
-def _disc_step(case, alpha):
-    """-> (step argument, per-component vector)."""
-    n = sum(len(IN_SLICES[i]) for i in (case.get("I") or list(IN_SLICES)))
+def _disc_step(case, alpha, fn, ins):
+    """-> (step argument, per-component vector over ALL components of the layout)."""
     a = case["mode"]
+    n = fn.n
     if case["step"] == "default":
-        return None, np.full(3, 1e-7)
+        return None, np.full(n, 1e-7)
     if case["step"] == "vec":
-        cols = [j for i in (case.get("I") or list(IN_SLICES)) for j in IN_SLICES[i]]
-        v = [float(alpha["vec"][j]) for j in cols]
-        full = np.array(alpha["vec"][:3], dtype=float)
-        return v, full  # a list: what a user would type; DisciplineJacApprox documents "an iterable of floats"
+        pool = tuple(alpha["vec"]) + tuple(alpha["vec"])
+        full = np.array(pool[:n], dtype=float)
+        cols = [j for i in (case.get("I") or list(ins)) for j in ins[i]]
+        # a list: what a user would type; DisciplineJacApprox documents "an iterable of floats with the same length as the inputs"
+        return [float(full[j]) for j in cols], full
     s = alpha["cs_steps"][0] if a == "CS" else alpha["steps"][1]
-    return s, np.full(3, s)
+    return s, np.full(n, s)
 
 
-def _disc_tol(a, x, hvec):
-    fn = FUNCS[DFN]
+def _disc_tol(fn, a, x, hvec):
     tol, _ = _tolerances(fn, a, x, fn.lb, fn.ub, hvec, "none", list(range(fn.n)))
     return tol
 
@@ -589,63 +778,116 @@ def _selected(sel, name, size):
     return list(range(size))  # "..." / "none"
 
 
+def _flat_cols(sel, names, ins):
+    """Flat positions (in the vector made of the variables ``names``, in this order) of the selected components
+    -> (positions in that vector, the same components as columns of the full layout)."""
+    pos, cols, cursor = [], [], 0
+    for i in names:
+        for k in _selected(sel, i, len(ins[i])):
+            pos.append(cursor + k)
+            cols.append(ins[i][k])
+        cursor += len(ins[i])  # the FULL size of the variable
+    return pos, cols
+
+
+def _data(ins, x):
+    return {k: x[c].copy() for k, c in ins.items()}
+
+
+def _check_jacobian(d, case, data, a, thr, step, sel, names_in, names_out):
+    """Discipline.check_jacobian; returns (verdict, approximated Jacobian saved by the call itself or None)."""
+    kw = {} if step is None else {"step": step}
+    path = None
+    if _SCRATCH and not case.get("wrong"):
+        path = os.path.join(_SCRATCH, f"ref_{os.getpid()}.pkl")
+        kw.update(reference_jacobian_path=path, save_reference_jacobian=True)
+    ok = d.check_jacobian(data, derr_approx=MODE[a], threshold=thr, input_names=list(names_in), output_names=list(names_out), indices=_decode_sel(sel), **kw)
+    approx = None
+    if path:
+        import pickle
+
+        with open(path, "rb") as f:
+            approx = pickle.load(f)
+        os.remove(path)
+    return ok, approx
+
+
+def _threshold(fn, tol):
+    thr = max(1e-6, 4.0 * float(tol.max()))
+    if not (thr * (3.0 + float(fn.bound(1).max())) + float(tol.max()) < 0.5 * WRONG_DELTA):
+        raise HarnessError("threshold does not separate correct from wrong Jacobians")
+    return thr
+
+
+def _judge_check(case, ok, approx, sel, names_in, names_out, lay, exact, tol, step, thr):
+    fn, ins, outs = lay
+    viols = []
+    expected_ok = not case["wrong"]
+    if bool(ok) != expected_ok:
+        inv = "check_jacobian-accepts-correct" if expected_ok else "check_jacobian-rejects-wrong-selected-entry"
+        viols.append((inv, f"check_jacobian returned {ok}; analytic Jacobian {'is exact' if expected_ok else 'is wrong by %s in entry %s' % (WRONG_DELTA, case['wrong'])}; indices={sel} inputs={list(names_in)} outputs={list(names_out)} step={step} threshold={thr:.2e}"))
+    if approx is not None:  # the reference Jacobian the call computed: selected columns exact, the others zero
+        ni, no = list(names_in) or list(ins), list(names_out) or list(outs)
+        _, cols = _flat_cols(sel, ni, ins)
+        strict = len(cols) < sum(len(ins[i]) for i in ni)
+        if sorted(approx) != sorted(no) or any(sorted(approx[o]) != sorted(ni) for o in approx):
+            viols.append(("jacobian-keys", f"reference Jacobian has {[(o, sorted(v)) for o, v in approx.items()]}, expected {no} x {ni}"))
+        else:
+            viols += [("check_jacobian-reference:" + i, m + f" (indices={sel})") for i, m in _compare_blocks(approx, ni, no, exact, tol, cols if strict else None, ins, outs)]
+    return viols
+
+
 def exec_B(case):
     alpha = ALPHABETS[case["alpha"]]
-    fn = FUNCS[DFN]
+    lay = _lay(case)
+    fn, ins, outs = lay
+    layout = case.get("layout", "toy33")
     a = case["mode"]
-    x = _disc_point(case.get("point", "interior"), alpha)
-    step, hvec = _disc_step(case, alpha)
+    x = _disc_point(fn, case.get("point", "interior"), alpha)
+    step, hvec = _disc_step(case, alpha, fn, ins)
     if case["part"] == "B1" and case["setup"] == "setter":  # the setter installs the default approximation (step 1e-7)
-        step, hvec = None, np.full(3, 1e-7)
-    tol = _disc_tol(a, x, hvec)
+        step, hvec = None, np.full(fn.n, 1e-7)
+    tol = _disc_tol(fn, a, x, hvec)
     exact = fn.jac(x)
-    data = {"x1": x[:1].copy(), "x2": x[1:].copy()}
+    data = _data(ins, x)
     obs = {"x": x.tolist(), "step": step}
     viols = []
     part = case["part"]
     try:
         if part == "B1":
-            d = _toy(x)
+            d = _toy(layout, x)
             if case["setup"] == "setter":
                 d.linearization_mode = MODE[a]
             else:
                 d.set_jacobian_approximation(MODE[a], **({} if step is None else {"jax_approx_step": step}))
             if case["din"] is None:
                 jac = d.linearize(data, compute_all_jacobians=True)
-                ins, outs = list(IN_SLICES), list(OUT_SLICES)
+                ni, no = list(ins), list(outs)
             else:
-                ins, outs = list(case["din"]), list(case["dout"])
-                d.add_differentiated_inputs(ins)
-                d.add_differentiated_outputs(outs)
+                ni, no = list(case["din"]), list(case["dout"])
+                d.add_differentiated_inputs(ni)
+                d.add_differentiated_outputs(no)
                 jac = d.linearize(data)
             obs["n_runs"] = d.n_runs
-            if sorted(jac) != sorted(outs) or any(sorted(jac[o]) != sorted(ins) for o in jac):
-                viols.append(("jacobian-keys", f"got {[(o, sorted(v)) for o, v in jac.items()]}, expected outputs {outs} x inputs {ins}"))
+            if sorted(jac) != sorted(no) or any(sorted(jac[o]) != sorted(ni) for o in jac):
+                viols.append(("jacobian-keys", f"got {[(o, sorted(v)) for o, v in jac.items()]}, expected outputs {no} x inputs {ni}"))
             else:
-                viols += _compare_blocks(jac, ins, outs, exact, tol, None)
+                viols += _compare_blocks(jac, ni, no, exact, tol, None, ins, outs)
         elif part == "B3":
             from gemseo.utils.derivatives.derivatives_approx import DisciplineJacApprox
 
-            d = _toy(x)
+            d = _toy(layout, x)
             d.execute(data)
             kw = {"parallel": True, "n_processes": 2} if case["par"] else {}
             ap = DisciplineJacApprox(d, MODE[a], **({} if step is None else {"step": step}), **kw)
-            ins, outs = list(IN_SLICES), list(OUT_SLICES)
-            jac = ap.compute_approx_jac(outs, ins, list(case["xidx"]))
-            viols += _compare_blocks(jac, ins, outs, exact, tol, list(case["xidx"]) or None)
+            jac = ap.compute_approx_jac(list(outs), list(ins), list(case["xidx"]))
+            viols += _compare_blocks(jac, list(ins), list(outs), exact, tol, list(case["xidx"]) or None, ins, outs)
         elif part == "B2":
-            d = _toy(x, tuple(case["wrong"]) if case["wrong"] else None)
-            thr = max(1e-6, 4.0 * float(tol.max()))
-            g1 = float(fn.bound(1).max())
-            if not (thr * (3.0 + g1) + float(tol.max()) < 0.5 * WRONG_DELTA):
-                raise HarnessError("threshold does not separate correct from wrong Jacobians")
-            kw = {} if step is None else {"step": step}
-            ok = d.check_jacobian(data, derr_approx=MODE[a], threshold=thr, input_names=list(case["I"]), output_names=list(case["O"]), indices=_decode_sel(case["sel"]), **kw)
+            d = _toy(layout, x, tuple(case["wrong"]) if case["wrong"] else None)
+            thr = _threshold(fn, tol)
+            ok, approx = _check_jacobian(d, case, data, a, thr, step, case["sel"], case["I"], case["O"])
             obs.update(result=bool(ok), threshold=thr)
-            expected_ok = not case["wrong"]
-            if bool(ok) != expected_ok:
-                inv = "check_jacobian-accepts-correct" if expected_ok else "check_jacobian-rejects-wrong-selected-entry"
-                viols.append((inv, f"check_jacobian returned {ok}; analytic Jacobian {'is exact' if expected_ok else 'is wrong by %s in entry %s' % (WRONG_DELTA, case['wrong'])}; indices={case['sel']} inputs={case['I']} outputs={case['O']} step={step} threshold={thr:.2e}"))
+            viols += _judge_check(case, ok, approx, case["sel"], case["I"], case["O"], lay, exact, tol, step, thr)
         else:
             raise ValueError(part)
     except HarnessError:
@@ -653,14 +895,92 @@ def exec_B(case):
     except Exception as e:  # noqa: BLE001
         viols.append(("no-exception", f"{type(e).__name__}: {str(e)[:200]}"))
         obs["raised"] = f"{type(e).__name__}: {str(e)[:200]}"
-    return viols, obs
+    return _dedupe(viols), obs
 
 
-def _compare_blocks(jac, ins, outs, exact, tol, xidx):
+def exec_HB(case):
+    """Two calls on the SAME discipline / DisciplineJacApprox object (layout toy54); the second is judged as a fresh one."""
+    from gemseo.utils.derivatives.derivatives_approx import DisciplineJacApprox
+
+    alpha = ALPHABETS[case["alpha"]]
+    lay = _lay(case)
+    fn, ins, outs = lay
+    layout, a, kind = case["layout"], case["mode"], case["kind"]
+    x1 = _disc_point(fn, "interior", alpha)
+    x2 = x1.copy() if case["same_point"] else _disc_point(fn, case.get("point", "interior"), alpha, second=True)
+    step, hvec = _disc_step(case, alpha, fn, ins)
+    tol, exact = _disc_tol(fn, a, x2, hvec), fn.jac(x2)
+    obs, viols = {"x1": x1.tolist(), "x2": x2.tolist(), "step": step}, []
+    try:
+        if kind == "linearize":
+            d = _toy(layout, x1)
+            d.set_jacobian_approximation(MODE[a], **({} if step is None else {"jax_approx_step": step}))
+            # add_differentiated_* accumulate (documented: "Add the inputs ..."): the second request is the union
+            ni = {i for cfg in (case["first"], case["second"]) if cfg for i in cfg[0]}
+            no = {o for cfg in (case["first"], case["second"]) if cfg for o in cfg[1]}
+            ei, eo = (list(ins), list(outs)) if case["second"] is None else (sorted(ni), sorted(no))
+            if not case.get("free_point"):
+                # oracle boundary: DisciplineJacApprox differentiates a function of the differentiated inputs only, the
+                # other inputs are taken from the discipline's DEFAULTS, not from input_data (see part X); the second
+                # point therefore differs from the defaults (= the first point) only in the differentiated inputs
+                for i, c in ins.items():
+                    if i not in ei:
+                        x2[c] = x1[c]
+                tol, exact = _disc_tol(fn, a, x2, hvec), fn.jac(x2)
+                obs["x2"] = x2.tolist()
+            for cfg, x in ((case["first"], x1), (case["second"], x2)):
+                if cfg is None:
+                    jac = d.linearize(_data(ins, x), compute_all_jacobians=True)
+                else:
+                    d.add_differentiated_inputs(list(cfg[0]))
+                    d.add_differentiated_outputs(list(cfg[1]))
+                    jac = d.linearize(_data(ins, x))
+            # a cache hit may return MORE blocks than requested (same in analytic mode): only the requested ones are judged
+            if any(o not in jac or any(i not in jac[o] for i in ei) for o in eo):
+                viols.append(("jacobian-keys", f"got {[(o, sorted(v)) for o, v in jac.items()]}, expected at least outputs {eo} x inputs {ei}"))
+            else:
+                viols += _compare_blocks(jac, ei, eo, exact, tol, None, ins, outs)
+        elif kind == "compute_approx_jac":
+            d = _toy(layout, x1)
+            ap = DisciplineJacApprox(d, MODE[a], **({} if step is None else {"step": step}))
+            d.execute(_data(ins, x1))
+            ap.compute_approx_jac(list(outs), list(ins), list(case["first"]))
+            d.execute(_data(ins, x2))
+            jac = ap.compute_approx_jac(list(outs), list(ins), list(case["second"]))
+            viols += _compare_blocks(jac, list(ins), list(outs), exact, tol, list(case["second"]) or None, ins, outs)
+        elif kind == "check_jacobian":
+            d = _toy(layout, x1, tuple(case["wrong"]) if case["wrong"] else None)
+            thr = _threshold(fn, tol)
+            _check_jacobian(d, {"wrong": True}, _data(ins, x1), a, thr, step, case["first"], [], [])
+            ok, approx = _check_jacobian(d, case, _data(ins, x2), a, thr, step, case["second"], [], [])
+            obs.update(result=bool(ok), threshold=thr)
+            viols += _judge_check(case, ok, approx, case["second"], [], [], lay, exact, tol, step, thr)
+        else:
+            raise ValueError(kind)
+    except HarnessError:
+        raise
+    except Exception as e:  # noqa: BLE001
+        viols.append(("no-exception", f"{type(e).__name__}: {str(e)[:200]}"))
+        obs["raised"] = f"{type(e).__name__}: {str(e)[:200]}"
+    return _dedupe(viols), obs
+
+
+def _dedupe(viols):
+    seen, out = set(), []
+    for inv, msg in viols:  # one message per invariant is enough
+        if inv not in seen:
+            seen.add(inv)
+            out.append((inv, msg))
+    return out
+
+
+def _compare_blocks(jac, names_in, names_out, exact, tol, xidx, ins, outs):
+    """Blocks of a {output: {input: array}} Jacobian against the exact derivative; ``xidx`` = columns (of the full
+    layout) that were differentiated (None: all): those must be exact, the others exactly zero."""
     viols = []
-    for o in outs:
-        for i in ins:
-            r, c = OUT_SLICES[o], IN_SLICES[i]
+    for o in names_out:
+        for i in names_in:
+            r, c = outs[o], ins[i]
             blk = jac[o][i]
             blk = blk.toarray() if hasattr(blk, "toarray") else np.asarray(blk)
             if blk.shape != (len(r), len(c)):
@@ -670,25 +990,42 @@ def _compare_blocks(jac, ins, outs, exact, tol, xidx):
             for cc, j in enumerate(c):
                 if xidx is not None and j not in xidx:
                     if (blk[:, cc] != 0.0).any():
-                        viols.append(("unselected-column-not-zero", f"d{o}/d{i}[:, {cc}] = {blk[:, cc].tolist()} for x_indices={xidx}"))
+                        viols.append(("unselected-column-not-zero", f"d{o}/d{i}[:, {cc}] = {blk[:, cc].tolist()} for differentiated columns {xidx}"))
                     continue
                 e = np.abs(blk[:, cc] - exact[r, j])
                 if not np.isfinite(blk[:, cc]).all():
                     viols.append(("finite-jacobian", f"d{o}/d{i}[:, {cc}] = {blk[:, cc].tolist()}, exact {exact[r, j].tolist()}"))
                 elif not (e <= tol[r, j]).all():
                     viols.append(("error-bound", f"d{o}/d{i}[:, {cc}] = {blk[:, cc].tolist()}, exact {exact[r, j].tolist()}, |err|={e.tolist()} > bound {tol[r, j].tolist()}"))
-    # one message per invariant is enough
-    seen, out = set(), []
-    for inv, msg in viols:
-        if inv not in seen:
-            seen.add(inv)
-            out.append((inv, msg))
-    return out
+    return _dedupe(viols)
 
 
 # ------------------------------------------------------------------------------------------------------
 # structural flags, minimisation of failing cases (attribution to the structural trigger), signatures
 # ------------------------------------------------------------------------------------------------------
+def _subset_flag(idx, n):
+    return "explicit-full-set" if len(idx) == n else "strict-subset" if idx == list(range(len(idx))) else "strict-subset-nonleading"
+
+
+def _sel_flags(sel, names_in, names_out, ins, outs):
+    f = []
+    if not sel:
+        return f
+    ni, no = list(names_in) or list(ins), list(names_out) or list(outs)
+    _, cols = _flat_cols(sel, ni, ins)
+    allc = [j for i in ni for j in ins[i]]
+    rows_strict = any(len(_selected(sel, o, len(outs[o]))) < len(outs[o]) for o in no)
+    if cols != allc:
+        strict_vars = [i for i in ni if len(_selected(sel, i, len(ins[i]))) < len(ins[i])]
+        where = "" if len(ni) < 2 or len(ins[ni[0]]) < 2 else ":on-first-variable" if strict_vars == ni[:1] else ":on-last-variable" if strict_vars == ni[-1:] else ":on-several-variables"
+        f.append(("indices:strict-input-subset" if cols == allc[: len(cols)] else "indices:strict-input-subset-nonleading") + where)
+    if rows_strict:
+        f.append("indices:strict-output-subset")
+    if cols == allc and not rows_strict:
+        f.append("indices:all-components")
+    return f
+
+
 def _flags(case):
     f = []
     p = case["part"]
@@ -696,7 +1033,7 @@ def _flags(case):
         fn = FUNCS[case["fn"]]
         idx = list(case["idx"])
         if idx:
-            f.append("explicit-full-set" if len(idx) == fn.n else "strict-subset" if idx == list(range(len(idx))) else "strict-subset-nonleading")
+            f.append(_subset_flag(idx, fn.n))
         if case["step"] == "vec":
             f.append("step-vector")
         elif case["step"] == "s2":
@@ -712,6 +1049,24 @@ def _flags(case):
         if case["fn"] != DEFAULT_FN[fn.n]:
             f.append(f"fn={case['fn']}")
         return f
+    if p == "H":
+        fn = FUNCS[case["fn"]]
+        f.append("same-instance-second-call")
+        if case["edit"] != "none":
+            f.append("bounds-edited:" + case["edit"])
+        if case["pos"] != "interior":
+            f.append("second-point:" + case["pos"])
+        f.append("design-space-normalized" if case["normalize"] else "design-space")
+        if case["idx2"]:
+            f.append(_subset_flag(list(case["idx2"]), fn.n))
+        if case["step"] == "vec":
+            f.append("step-vector")
+        if case["fn"] != DEFAULT_FN[fn.n]:
+            f.append(f"fn={case['fn']}")
+        return f
+    fn, ins, outs = _lay(case)
+    if case.get("layout", "toy33") != "toy33":
+        f.append("two-vector-inputs")
     if case["step"] == "vec":
         f.append("step-vector")
     elif case["step"] == "default":
@@ -725,41 +1080,60 @@ def _flags(case):
     elif p == "B3":
         x = list(case["xidx"])
         if x:
-            f.append("explicit-full-set" if len(x) == 3 else "strict-subset" if x == list(range(len(x))) else "strict-subset-nonleading")
+            f.append(_subset_flag(x, fn.n))
         if case["par"]:
             f.append("parallel")
     elif p == "B2":
-        ins = list(case["I"]) or list(IN_SLICES)
-        outs = list(case["O"]) or list(OUT_SLICES)
-        sel = case["sel"]
-        if sel:
-            cols = [j for i in ins for j in [IN_SLICES[i][k] for k in _selected(sel, i, len(IN_SLICES[i]))]]
-            allc = [j for i in ins for j in IN_SLICES[i]]
-            rows_strict = any(len(_selected(sel, o, len(OUT_SLICES[o]))) < len(OUT_SLICES[o]) for o in outs)
-            if cols != allc:
-                f.append("indices:strict-input-subset" if cols == allc[: len(cols)] else "indices:strict-input-subset-nonleading")
-            if rows_strict:
-                f.append("indices:strict-output-subset")
-            if cols == allc and not rows_strict:
-                f.append("indices:all-components")
+        f += _sel_flags(case["sel"], case["I"], case["O"], ins, outs)
         if case["I"]:
             f.append("input_names-given")
         if case["O"]:
             f.append("output_names-given")
         if case["wrong"]:
             f.append("one-wrong-selected-entry")
+    elif p == "HB":
+        f.append("same-object-second-call:" + case["kind"])
+        if case["same_point"]:
+            f.append("same-point")
+        if case.get("free_point"):
+            f.append("non-differentiated-inputs-off-defaults")
+        if case["kind"] == "check_jacobian":
+            f += _sel_flags(case["second"], [], [], ins, outs)
+            if case["first"]:
+                f.append("first-call-with-indices")
+            if case["wrong"]:
+                f.append("one-wrong-selected-entry")
+        elif case["kind"] == "compute_approx_jac":
+            if case["second"]:
+                f.append(_subset_flag(list(case["second"]), fn.n))
+            if case["first"]:
+                f.append("first-call-with-x_indices")
+        else:
+            f.append("second-io:" + ("all" if case["second"] is None else "subset"))
+            f.append("first-io:" + ("all" if case["first"] is None else "subset"))
     return f
 
 
+def _wrong_selected(wrong, sel, names_in, names_out, ins, outs):
+    o, r, i, c = wrong
+    ni, no = list(names_in) or list(ins), list(names_out) or list(outs)
+    return o in no and i in ni and r in _selected(sel, o, len(outs[o])) and c in _selected(sel, i, len(ins[i]))
+
+
 def _valid(case):
-    if case["part"] == "A":
+    p = case["part"]
+    if p == "A":
         return not (case["approx"] == "CS" and case["step"] == "vec")
-    if case["part"] == "B2" and case["wrong"]:
-        o, r, i, c = case["wrong"]
-        ins = list(case["I"]) or list(IN_SLICES)
-        outs = list(case["O"]) or list(OUT_SLICES)
-        return o in outs and i in ins and r in _selected(case["sel"], o, len(OUT_SLICES[o])) and c in _selected(case["sel"], i, len(IN_SLICES[i]))
-    return not (case.get("mode") == "CS" and case["step"] == "vec")
+    if p == "H":
+        return not (case["approx"] == "CS" and case["step"] == "vec") and case["pos"] in HIST_VALID_POS[case["edit"]]
+    if case.get("mode") == "CS" and case["step"] == "vec":
+        return False
+    _, ins, outs = _lay(case)
+    if p == "B2" and case["wrong"]:
+        return _wrong_selected(case["wrong"], case["sel"], case["I"], case["O"], ins, outs)
+    if p == "HB" and case["kind"] == "check_jacobian" and case["wrong"]:
+        return _wrong_selected(case["wrong"], case["second"], [], [], ins, outs)
+    return True
 
 
 def _resets(case):
@@ -770,14 +1144,30 @@ def _resets(case):
         n = FUNCS[case["fn"]].n
         out += [("par", False), ("via", "call"), ("step", "s1"), ("ds", "none"), ("ds", "phys"), ("point", "interior"), ("fn", DEFAULT_FN[n])]
         out += [("idx", [])] + [("idx", [j]) for j in range(n)]
+    elif p == "H":
+        n = FUNCS[case["fn"]].n
+        out += [("step", "s1"), ("normalize", False), ("edit", "none"), ("pos", "interior"), ("fn", DEFAULT_FN[n])]
+        out += [("idx2", [])] + [("idx2", [j]) for j in range(n)]
     elif p == "B1":
-        out += [("point", "interior"), ("setup", "explicit"), ("din", None)]
+        out += [("point", "interior"), ("setup", "explicit"), ("din", None), ("layout", "toy33")]
     elif p == "B3":
-        out += [("par", False), ("step", "scalar"), ("xidx", [])] + [("xidx", [j]) for j in range(3)]
+        n = _lay(case)[0].n
+        out += [("par", False), ("step", "scalar"), ("xidx", [])] + [("xidx", [j]) for j in range(n)]
     elif p == "B2":
+        _, ins, outs = _lay(case)
+        vi, vo = list(ins)[-1], list(outs)[-1]
         out += [("wrong", None), ("step", "scalar"), ("I", []), ("O", [])]
-        out += [("sel", s) for s in ({}, {"x2": 0}, {"x2": 1}, {"y2": 0}, {"y2": 1})]
+        out += [("sel", s) for s in ({}, {vi: 0}, {vi: 1}, {vo: 0}, {vo: 1})]
         out += [("sel", {k: v for k, v in case["sel"].items() if k != drop}) for drop in case["sel"]]
+    elif p == "HB":
+        out += [("wrong", None), ("step", "scalar"), ("same_point", True)]
+        if case["kind"] == "linearize":
+            out += [("first", None), ("second", None)]
+        elif case["kind"] == "compute_approx_jac":
+            out += [("first", []), ("second", [])]
+        else:
+            out += [("first", {}), ("second", {})]
+            out += [("second", {k: v for k, v in case["second"].items() if k != drop}) for drop in case["second"]]
     return out
 
 
@@ -791,7 +1181,8 @@ def _rank(sel):
 
 
 def _execute(case):
-    return exec_A(case) if case["part"] == "A" else exec_B(case)
+    p = case["part"]
+    return exec_A(case) if p == "A" else exec_H(case) if p == "H" else exec_HB(case) if p == "HB" else exec_B(case)
 
 
 def _minimize(case, inv):
@@ -802,7 +1193,9 @@ def _minimize(case, inv):
         for axis, val in _resets(cur):
             if cur.get(axis) == val:
                 continue
-            if axis in ("idx", "xidx", "sel") and _rank(val) >= _rank(cur[axis]):
+            if axis in ("idx", "idx2", "xidx", "sel") and _rank(val) >= _rank(cur[axis]):
+                continue
+            if cur["part"] == "HB" and axis in ("first", "second") and cur["kind"] != "linearize" and _rank(val) >= _rank(cur[axis]):
                 continue
             if axis == "ds" and val == "phys" and cur["ds"] != "norm":
                 continue
@@ -826,12 +1219,22 @@ _MIN_CACHE: dict = {}
 _NONTRIVIAL_RULE = (
     "one case = one configuration of the product; non-trivial when at least one structural axis is off its default "
     "(explicit x_indices, step vector / second step / step at construction, design space, point on/near a bound or with a "
-    "zero component, parallel; discipline level: indices given, differentiated subset, step vector, one wrong entry)"
+    "zero component, parallel; discipline level: indices given, differentiated subset, step vector, one wrong entry; "
+    "histories: every two-call history counts)"
 )
 
 
 def _approx_of(case):
-    return CLASSNAME[case["approx"] if case["part"] == "A" else case["mode"]]
+    return CLASSNAME[case["approx"] if case["part"] in ("A", "H") else case["mode"]]
+
+
+LEVELS = {
+    "A": "f_gradient",
+    "H": "f_gradient, second call on the same approximator",
+    "B1": "Discipline.linearize",
+    "B2": "Discipline.check_jacobian",
+    "B3": "DisciplineJacApprox.compute_approx_jac",
+}
 
 
 def _key(case):
@@ -842,9 +1245,9 @@ def check_case(case, tally):
     viols, obs = _execute(case)
     flags = _flags(case)
     status = "ok" if not viols else "+".join(sorted({i for i, _ in viols}))
-    level = {"A": "f_gradient", "B1": "Discipline.linearize", "B2": "Discipline.check_jacobian", "B3": "DisciplineJacApprox.compute_approx_jac"}[case["part"]]
-    if case["part"] == "A":
-        outcome = f"{case['approx']}:{status}:{obs.get('order', '-')}:{obs.get('pattern', '-')}"
+    level = LEVELS.get(case["part"]) or f"{'Discipline' if case['kind'] != 'compute_approx_jac' else 'DisciplineJacApprox'}.{case['kind']}, second call on the same object"
+    if case["part"] in ("A", "H"):
+        outcome = ("H:" if case["part"] == "H" else "") + f"{case['approx']}:{status}:{obs.get('order', '-')}:{obs.get('pattern', '-')}"
         if obs.get("below_lower_bound"):
             tally.count("cases_with_evaluations_below_a_lower_bound(not an oracle)")
         tally.count("function_evaluations_logged", int(obs.get("n_calls", 0)))
@@ -852,7 +1255,7 @@ def check_case(case, tally):
             t = obs["tightness"]
             tally.count(f"observed_error/bound:{case['approx']}:{obs.get('order')}:" + (">=0.1" if t >= 0.1 else ">=0.001" if t >= 1e-3 else "<0.001"))
     else:
-        outcome = f"{case['part']}:{case['mode']}:{status}" + (f":{obs.get('result')}" if "result" in obs else "")
+        outcome = f"{case['part']}{':' + case['kind'] if 'kind' in case else ''}:{case['mode']}:{status}" + (f":{obs.get('result')}" if "result" in obs else "")
     nontrivial = bool([f for f in flags if not f.startswith("fn=")])
     tally.case(_key(case), nontrivial=nontrivial, outcome=outcome, sample={"case": case, "observed": {k: obs[k] for k in ("jacobian", "n_calls", "pattern", "order", "result") if k in obs}})
     done = set()
@@ -898,49 +1301,133 @@ def cases_A(thorough, alpha):
     return out
 
 
-def _sel_product(thorough):
-    x1 = [None, 0] + (["..."] if thorough else [])
-    x2 = [None, 0, 1, [0, 1], [1], "slice:0:1", "..."] + (["none", "slice:1:2"] if thorough else [])
-    y1 = [None, 0]
-    y2 = [None, 1, [0, 1], [0]] + (["slice:0:1", 0] if thorough else [])
-    for a, b, c, d in itertools.product(x1, x2, y1, y2):
-        yield {k: v for k, v in (("x1", a), ("x2", b), ("y1", c), ("y2", d)) if v is not None}
+SEL_ALPHABET = {
+    # layout -> variable -> (quick forms, thorough extra forms); None = the variable is absent from ``indices``
+    "toy33": {
+        "x1": ([None, 0], ["..."]),
+        "x2": ([None, 0, 1, [0, 1], [1], "slice:0:1", "..."], ["none", "slice:1:2"]),
+        "y1": ([None, 0], []),
+        "y2": ([None, 1, [0, 1], [0]], ["slice:0:1", 0]),
+    },
+    # strict subsets on the first variable only, the last only, both; ints / lists / slices
+    "toy54": {
+        "a": ([None, 1, [0, 2], "slice:0:2", [2]], [0, [1, 2], "..."]),
+        "b": ([None, 0, [1], "slice:1:2"], [1, "..."]),
+        "y": ([None, 1], [[0, 1]]),
+        "w": ([None, 0], []),
+    },
+}
+THOROUGH_NAMES_TOY54 = [([], []), (["a", "b"], ["w"]), (["b"], ["y", "w"]), (["a"], ["y"]), (["a", "b"], ["y", "w"])]
+QUICK_NAMES = {
+    "toy33": [([], []), (["x2"], ["y2"])],
+    "toy54": [([], []), (["a", "b"], ["w"]), (["b"], ["y", "w"])],
+}
 
 
-QUICK_NAMES = [([], []), (["x2"], ["y2"]), (["x1", "x2"], ["y1"]), (["x1"], ["y1", "y2"])]
+def _sel_product(layout, thorough):
+    alpha = SEL_ALPHABET[layout]
+    names = list(alpha)
+    for combo in itertools.product(*[alpha[k][0] + (alpha[k][1] if thorough else []) for k in names]):
+        yield {k: v for k, v in zip(names, combo) if v is not None}
+
+
+def _wrong_entries(sel, ni, no, ins, outs, every):
+    """Entries (output, row, input, column) of the selected sub-Jacobian to be made wrong, one discipline each:
+    every selected entry (thorough), or per block its first selected row and first selected column (quick) -
+    so that every selected column and every selected row of every block (in particular of the block of the
+    variable that FOLLOWS a subsetted one) carries a wrong entry once."""
+    out = []
+    for o in no:
+        rows = _selected(sel, o, len(outs[o]))
+        for i in ni:
+            cols = _selected(sel, i, len(ins[i]))
+            ent = [(r, c) for r in rows for c in cols]
+            if not every:
+                ent = [(r, c) for r, c in ent if r == rows[0] or c == cols[0]]
+            out += [[o, r, i, c] for r, c in ent]
+    return out
 
 
 def cases_B(thorough, alpha):
     out = []
     modes = ["FD", "CD", "CS"]
-    names_in = product.nonempty_subsets(list(IN_SLICES))
-    names_out = product.nonempty_subsets(list(OUT_SLICES))
-    # B1 linearize
-    for a, setup, pt in itertools.product(modes, ["setter", "explicit"], ["interior", "zero"] + (["on_ub"] if thorough else [])):
-        for stp in ["default"] if setup == "setter" else ["scalar"]:
-            for din, dout in [(None, None)] + [(list(i), list(o)) for i in names_in for o in names_out]:
-                out.append({"part": "B1", "mode": a, "setup": setup, "step": stp, "point": pt, "din": din, "dout": dout, "alpha": alpha})
-    # B3 compute_approx_jac placement
-    for a, stp, par in itertools.product(modes, ["default", "scalar", "vec"], [False, True]):
-        for xidx in [[]] + [list(s) for s in product.nonempty_subsets([0, 1, 2])]:
-            c = {"part": "B3", "mode": a, "step": stp, "xidx": xidx, "par": par, "alpha": alpha}
+    for layout, lay in LAYOUTS.items():
+        ins, outs, n = lay["ins"], lay["outs"], FUNCS[lay["fn"]].n
+        names_in = product.nonempty_subsets(list(ins))
+        names_out = product.nonempty_subsets(list(outs))
+        # B1 linearize
+        for a, setup, pt in itertools.product(modes, ["setter", "explicit"], ["interior", "zero"] + (["on_ub"] if thorough else [])):
+            for stp in ["default"] if setup == "setter" else ["scalar"]:
+                for din, dout in [(None, None)] + [(list(i), list(o)) for i in names_in for o in names_out]:
+                    out.append({"part": "B1", "layout": layout, "mode": a, "setup": setup, "step": stp, "point": pt, "din": din, "dout": dout, "alpha": alpha})
+        # B3 compute_approx_jac placement (process-parallel on the small layout; thorough: on both)
+        for a, stp, par in itertools.product(modes, ["default", "scalar", "vec"], [False, True]):
+            if par and layout != "toy33" and not thorough:
+                continue
+            for xidx in [[]] + [list(s) for s in product.nonempty_subsets(list(range(n)))]:
+                c = {"part": "B3", "layout": layout, "mode": a, "step": stp, "xidx": xidx, "par": par, "alpha": alpha}
+                if _valid(c):
+                    out.append(c)
+        # B2 check_jacobian
+        for a, stp in itertools.product(modes, ["scalar", "vec"] + (["default"] if thorough else [])):
+            for ni, no in itertools.product([[]] + [list(i) for i in names_in], [[]] + [list(o) for o in names_out]):
+                if not thorough and (ni, no) not in QUICK_NAMES[layout]:
+                    continue
+                if thorough and layout == "toy54" and (ni, no) not in THOROUGH_NAMES_TOY54:
+                    continue
+                for sel in _sel_product(layout, thorough):
+                    base = {"part": "B2", "layout": layout, "mode": a, "step": stp, "I": ni, "O": no, "sel": sel, "wrong": None, "alpha": alpha}
+                    if not _valid(base):
+                        continue
+                    out.append(base)
+                    every = layout == "toy33" or (thorough and a == "FD" and stp == "scalar")
+                    for w in _wrong_entries(sel, ni or list(ins), no or list(outs), ins, outs, every):
+                        out.append({**base, "wrong": w})
+    return out
+
+
+def cases_H(thorough, alpha):
+    """Two-call histories on one approximator with an edit of its DesignSpace in between (full product)."""
+    out = []
+    for fname in ["cubic3", "sq2", "expsin3"] if thorough else ["cubic3"]:
+        n = FUNCS[fname].n
+        subsets = [list(s) for s in product.nonempty_subsets(list(range(n)))] if thorough else [[n - 1], [0, n - 1]]
+        for approx, normalize, (edit, poss), idx2, step in itertools.product(["FD", "CD", "CS"], [False, True], HIST_EDITS.items(), [[]] + subsets, ["s1", "vec"]):
+            for pos in poss + (["interior"] if thorough else []):
+                c = {"part": "H", "fn": fname, "approx": approx, "normalize": normalize, "edit": edit, "pos": pos, "idx2": idx2, "step": step, "alpha": alpha}
+                if _valid(c):
+                    out.append(c)
+    return out
+
+
+def cases_X(alpha):
+    """NOT part of the default run (./check C16 --only X): witnesses of a behaviour left outside the oracle -
+    linearize(input_data) in an approximation mode with a strict subset of differentiated inputs evaluates the
+    other inputs at the discipline's defaults instead of input_data."""
+    base = {"part": "HB", "layout": "toy54", "alpha": alpha, "wrong": None, "kind": "linearize", "step": "scalar", "same_point": False, "free_point": True}
+    return [{**base, "mode": a, "first": cfg, "second": cfg} for a in ("FD", "CD", "CS") for cfg in ([["a"], ["y"]], [["b"], ["w"]])]
+
+
+def cases_HB(thorough, alpha):
+    """Two-call histories on one discipline / DisciplineJacApprox (layout toy54)."""
+    out = []
+    base = {"part": "HB", "layout": "toy54", "alpha": alpha, "wrong": None}
+    io_cfgs = [None, [["a"], ["y"]], [["b"], ["w"]], [["a", "b"], ["y"]]]
+    x_cfgs = [[], [0], [1, 3], [2, 4], [3]] + ([[0, 1, 2], [3, 4], [4]] if thorough else [])
+    sel_cfgs = [{}, {"a": 1}, {"a": [0, 2]}, {"b": 1}, {"a": "slice:0:2", "b": 0}, {"a": 1, "w": 0}]
+    for a, same in itertools.product(["FD", "CD", "CS"], [False, True]):
+        for first, second in itertools.product(io_cfgs, io_cfgs):
+            out.append({**base, "kind": "linearize", "mode": a, "step": "scalar", "same_point": same, "first": first, "second": second})
+        for stp, first, second in itertools.product(["scalar", "vec"], x_cfgs, x_cfgs):
+            c = {**base, "kind": "compute_approx_jac", "mode": a, "step": stp, "same_point": same, "first": first, "second": second}
             if _valid(c):
                 out.append(c)
-    # B2 check_jacobian
-    for a, stp in itertools.product(modes, ["scalar", "vec"] + (["default"] if thorough else [])):
-        for ins, outs in itertools.product([[]] + [list(i) for i in names_in], [[]] + [list(o) for o in names_out]):
-            if not thorough and (ins, outs) not in QUICK_NAMES:
-                continue
-            for sel in _sel_product(thorough):
-                base = {"part": "B2", "mode": a, "step": stp, "I": ins, "O": outs, "sel": sel, "wrong": None, "alpha": alpha}
-                if not _valid(base):
-                    continue
-                out.append(base)
-                for o in outs or list(OUT_SLICES):
-                    for i in ins or list(IN_SLICES):
-                        for r in _selected(sel, o, len(OUT_SLICES[o])):
-                            for c in _selected(sel, i, len(IN_SLICES[i])):
-                                out.append({**base, "wrong": [o, r, i, c]})
+        lay = LAYOUTS["toy54"]
+        for first, second in itertools.product(sel_cfgs if thorough else sel_cfgs[:2], sel_cfgs):
+            c = {**base, "kind": "check_jacobian", "mode": a, "step": "scalar", "same_point": same, "first": first, "second": second}
+            out.append(c)
+            for w in _wrong_entries(second, list(lay["ins"]), list(lay["outs"]), lay["ins"], lay["outs"], thorough):
+                out.append({**c, "wrong": w})
     return out
 
 
@@ -1025,12 +1512,20 @@ def _uses_processes(case):
 
 
 def run(ctx):
+    global _SCRATCH
+    _SCRATCH = ctx.scratch
     alpha = ctx.seed % len(ALPHABETS)
     only = (getattr(ctx, "only", None) or "").upper()
     cases = []
-    if not only or only.startswith("A"):
+    if not only or only == "A":
         cases += cases_A(ctx.thorough, alpha)
-    if not only or only.startswith("B"):
+    if not only or only == "H":
+        cases += cases_H(ctx.thorough, alpha)
+    if not only or only == "HB":
+        cases += cases_HB(ctx.thorough, alpha)
+    if only == "X":
+        cases += cases_X(alpha)
+    if not only or (only.startswith("B")):
         cases += [c for c in cases_B(ctx.thorough, alpha) if not only or only == "B" or c["part"] == only]
     cases.sort(key=lambda c: len(_flags(c)))  # simplest first (stable)
     serial = [c for c in cases if not _uses_processes(c)]
@@ -1061,7 +1556,11 @@ def run(ctx):
             "design_space": ["none", "bounded, normalize=False", "bounded, normalize=True"],
             "discipline_level": "linearize: 3 modes x 2 set-ups x points x (all | every differentiated input/output subset); "
             "compute_approx_jac: 3 modes x steps x every x_indices subset x serial/processes; "
-            "check_jacobian: 3 modes x steps x " + ("every" if ctx.thorough else "4") + " input_names/output_names choices x every enumerated indices mapping x (exact Jacobian + one wrong entry per selected entry)",
+            "check_jacobian: 2 harness disciplines (x1:1,x2:2 -> y1:1,y2:2 and a:3,b:2 -> y:2,w:2) x 3 modes x steps x input_names/output_names choices x every enumerated indices mapping "
+            "(ints/lists/slices/..., strict subsets on the first variable only, the last only, both) x (exact Jacobian: verdict + the reference Jacobian saved by the call, block by block; "
+            "one wrong entry per selected entry (small discipline) or per block first selected row and column (two-vector discipline)); "
+            "histories: 2 calls on one approximator with the DesignSpace edited in between (9 edits x second-point positions x normalize x x_indices x step), "
+            "2 calls on one discipline / DisciplineJacApprox (linearize, compute_approx_jac, check_jacobian with changing io / x_indices / indices / point)",
             "value_alphabet": alpha,
         },
         "assumptions": [
@@ -1077,5 +1576,7 @@ def run(ctx):
 
 
 def replay(case, ctx):
+    global _SCRATCH
+    _SCRATCH = ctx.scratch
     viols, obs = _execute(case)
     return {"case": case, "flags": _flags(case), "violations": [{"invariant": i, "message": m} for i, m in viols], **obs}
